@@ -847,8 +847,15 @@ func (x *Exec) siteAsserts(st *State, fr *Frame, kind, arg string, bind map[stri
 			}
 			t, err := env.EvalBool(parts[1])
 			if err != nil {
-				x.unsupported(st, err.Error())
-				return
+				// an assertion that cannot be evaluated (it names a local that is gone) is reported as such
+				// and skipped: nothing was assumed from it, so the path goes on and the other assertions
+				// are still decided
+				if !x.inSpecFailure {
+					x.inSpecFailure = true
+					x.oblige(st, "contract", "contract clause can be evaluated against the current source: "+err.Error(), TFalse, token.NoPos, x.contract.allProps())
+					x.inSpecFailure = false
+				}
+				continue
 			}
 			x.oblige(st, "site", fmt.Sprintf("%s: %s", strings.TrimSpace(parts[0]), parts[1]), t, token.NoPos, props)
 		}
